@@ -3,7 +3,10 @@
    receivers being built or loaded (Key, Metablock, Envelope, checkResult, Set), SubstituteParameters writing into the
    copies it makes first, VerifySublayouts replacing a sublayout by its summary in the map it was given by InTotoVerify,
    verifyMatchRule normalising the rule map returned by UnpackRule, recordArtifacts using its own visited set,
-   InTotoRecordStop filling the link it loaded.  None of them reaches an object of the CALLER of the verification entry
+   InTotoRecordStop filling the link it loaded; since the inventory follows values into composite literals (round 11:
+   a table built from an item's rules is a way to reach them) also fields of objects the function has just allocated
+   from a literal that mentions a parameter (InTotoRecordStart's linkMb, checkRequiredJSONFields' field, loadEnvelope's
+   e).  None of them reaches an object of the CALLER of the verification entry
    points.  Regenerate with tools/repin.py only after reading a new entry. *)
 From IT Require Import model.Base.
 
@@ -25,6 +28,7 @@ Definition pinned_param_writes : list (str * str * str) := [
   ((bs "(*Metablock).Load"), (bs "field-assign"), (bs "mb.Signed = payload"));
   ((bs "(*Metablock).Sign"), (bs "field-assign"), (bs "mb.Signatures = append(mb.Signatures, Signature{ KeyID: key.KeyID, Sig: hex.EncodeToString(signature), Certificate: key.KeyVal.Certificate, })"));
   ((bs "(*checkResult).evaluate"), (bs "field-assign"), (bs "cr.errors = append(cr.errors, err)"));
+  ((bs "InTotoRecordStart"), (bs "field-assign"), (bs "linkMb.Signatures = []Signature{}"));
   ((bs "InTotoRecordStop"), (bs "field-assign"), (bs "link.Products = products"));
   ((bs "Set.Add"), (bs "index-assign"), (bs "s[elem] = struct{}{}"));
   ((bs "Set.Remove"), (bs "in-place-call"), (bs "delete(s, elem)"));
@@ -35,7 +39,10 @@ Definition pinned_param_writes : list (str * str * str) := [
   ((bs "SubstituteParameters"), (bs "index-assign"), (bs "layout.Steps[i].ExpectedMaterials = substituteParametersInSliceOfSlices( replacer, layout.Steps[i].ExpectedMaterials)"));
   ((bs "SubstituteParameters"), (bs "index-assign"), (bs "layout.Steps[i].ExpectedProducts = substituteParametersInSliceOfSlices( replacer, layout.Steps[i].ExpectedProducts)"));
   ((bs "VerifySublayouts"), (bs "index-assign"), (bs "linkData[keyID] = summaryLink"));
+  ((bs "checkRequiredJSONFields"), (bs "field-assign"), (bs "field.name = fieldStr[:idx]"));
+  ((bs "checkRequiredJSONFields"), (bs "field-assign"), [102;105;101;108;100;46;111;109;105;116;101;109;112;116;121;32;61;32;115;116;114;105;110;103;115;46;67;111;110;116;97;105;110;115;40;102;105;101;108;100;83;116;114;91;105;100;120;43;49;58;93;44;32;34;111;109;105;116;101;109;112;116;121;34;41]);
   ((bs "hashToHex"), (bs "mutating-method"), (bs "h.Write(data)"));
+  ((bs "loadEnvelope"), (bs "field-assign"), (bs "e.payload = payload"));
   ((bs "recordArtifacts"), (bs "mutating-method"), (bs "visitedSymlinks.Add(path)"));
   ((bs "recordArtifacts"), (bs "mutating-method"), (bs "visitedSymlinks.Remove(path)"));
   ((bs "verifyMatchRule"), (bs "index-assign"), [114;117;108;101;68;97;116;97;91;34;112;97;116;116;101;114;110;34;93;32;61;32;112;97;116;104;46;67;108;101;97;110;40;114;117;108;101;68;97;116;97;91;34;112;97;116;116;101;114;110;34;93;41]);
